@@ -1326,6 +1326,236 @@ theorem addDia_abs (L Rm : Dia R) (s : R) (b : Int) (hL : IncAbove b L.diags) (h
   exact addDiaMerge_val s _ L.diags Rm.diags (Nat.le_refl _) _ j
 end diaAddThm
 
+section diaInnerThm
+variable {R : Type} [CommRing R]
+
+/-- apply a function to every stored value -/
+def Dia.mapv (f : R → R) (m : Dia R) : Dia R :=
+  { m with diags := m.diags.map fun d => (d.1, fun c => f (d.2 c)) }
+
+theorem Dia.mapv_offsets (f : R → R) (m : Dia R) : (m.mapv f).diags.map (·.1) = m.diags.map (·.1) := by
+  simp [Dia.mapv, List.map_map, Function.comp_def]
+
+/-- a function that keeps 0 commutes with the meaning of a diagonal-format matrix -/
+theorem Dia.mapv_abs (f : R → R) (hf : f 0 = 0) (m : Dia R) (i j : Nat) : (m.mapv f).abs i j = f (m.abs i j) := by
+  unfold Dia.abs Dia.mapv
+  simp only [← List.map_reverse, List.find?_map, Function.comp_def]
+  cases h : (m.diags.reverse.find? fun d => d.1 == (j : Int) - (i : Int)) with
+  | none => simp [hf]
+  | some d => simp
+
+/-- summing over the rows of a ket = summing over its stored diagonals (row r is kept on offset −r) -/
+theorem ket_sum (K : Dia R) (n : Nat) (hn : (K.diags.map (·.1)).Nodup)
+    (hr : ∀ d ∈ K.diags, -(n : Int) < d.1 ∧ d.1 ≤ 0) (g : Nat → R) :
+    ((List.range n).map fun i => K.abs i 0 * g i).sum = (K.diags.map fun d => d.2 0 * g (-d.1).toNat).sum := by
+  have hexp : ∀ i : Nat, K.abs i 0 * g i
+      = (K.diags.map fun d => (if ((i : Nat) : Int) = -d.1 then d.2 0 * g i else 0)).sum := by
+    intro i
+    rw [Dia.abs_eq_sum K hn, ← List.sum_map_mul_right]
+    congr 1
+    apply List.map_congr_left
+    intro d _
+    by_cases hd : d.1 = ((0 : Nat) : Int) - (i : Int)
+    · have : ((i : Nat) : Int) = -d.1 := by omega
+      rw [if_pos hd, if_pos this]
+    · have : ¬ ((i : Nat) : Int) = -d.1 := by omega
+      rw [if_neg hd, if_neg this, zero_mul]
+  simp only [hexp]
+  rw [sum_comm_list (List.range n) K.diags]
+  congr 1
+  apply List.map_congr_left
+  intro d hd
+  rw [sum_range_single n (-d.1) (fun i => d.2 0 * g i)]
+  have := hr d hd
+  rw [if_pos (by omega)]
+
+/-- summing over the columns of a bra = summing over its stored diagonals (column c is kept on offset c) -/
+theorem bra_sum (B : Dia R) (n : Nat) (hn : (B.diags.map (·.1)).Nodup)
+    (hr : ∀ d ∈ B.diags, 0 ≤ d.1 ∧ d.1 < (n : Int)) (g : Nat → R) :
+    ((List.range n).map fun j => B.abs 0 j * g j).sum = (B.diags.map fun d => d.2 d.1.toNat * g d.1.toNat).sum := by
+  have hexp : ∀ j : Nat, B.abs 0 j * g j
+      = (B.diags.map fun d => (if ((j : Nat) : Int) = d.1 then d.2 j * g j else 0)).sum := by
+    intro j
+    rw [Dia.abs_eq_sum B hn, ← List.sum_map_mul_right]
+    congr 1
+    apply List.map_congr_left
+    intro d _
+    by_cases hd : d.1 = (j : Int) - ((0 : Nat) : Int)
+    · have : ((j : Nat) : Int) = d.1 := by omega
+      rw [if_pos hd, if_pos this]
+    · have : ¬ ((j : Nat) : Int) = d.1 := by omega
+      rw [if_neg hd, if_neg this, zero_mul]
+  simp only [hexp]
+  rw [sum_comm_list (List.range n) B.diags]
+  congr 1
+  apply List.map_congr_left
+  intro d hd
+  rw [sum_range_single n d.1 (fun j => d.2 j * g j)]
+  have := hr d hd
+  rw [if_pos (by omega)]
+
+/-- well-formed ket of `n` rows in diagonal storage: distinct offsets, all inside the matrix -/
+def KetWF (K : Dia R) (n : Nat) : Prop :=
+  (K.diags.map (·.1)).Nodup ∧ ∀ d ∈ K.diags, -(n : Int) < d.1 ∧ d.1 ≤ 0
+/-- well-formed bra of `n` columns -/
+def BraWF (B : Dia R) (n : Nat) : Prop :=
+  (B.diags.map (·.1)).Nodup ∧ ∀ d ∈ B.diags, 0 ≤ d.1 ∧ d.1 < (n : Int)
+
+theorem KetWF.mapv {K : Dia R} {n : Nat} (h : KetWF K n) (f : R → R) : KetWF (K.mapv f) n := by
+  refine ⟨by rw [Dia.mapv_offsets]; exact h.1, ?_⟩
+  intro d hd
+  simp only [Dia.mapv, List.mem_map] at hd
+  obtain ⟨d', hd', rfl⟩ := hd
+  exact h.2 d' hd'
+
+/-- **`inner_dia` with `left` given as a ket is `Σ_r conj(left_r) · right_r`** -/
+theorem innerDiaCore_ket (conj : R → R) (hc : conj 0 = 0) (left right : Dia R) (n : Nat)
+    (hl : KetWF left n) (hrt : KetWF right n) :
+    innerDiaCore conj true left right = ((List.range n).map fun r => conj (left.abs r 0) * right.abs r 0).sum := by
+  have h1 : ∀ r : Nat, conj (left.abs r 0) * right.abs r 0 = right.abs r 0 * (left.mapv conj).abs r 0 := by
+    intro r; rw [Dia.mapv_abs conj hc, mul_comm]
+  simp only [h1]
+  rw [ket_sum right n hrt.1 hrt.2]
+  unfold innerDiaCore
+  congr 1
+  apply List.map_congr_left
+  intro dr hdr
+  have hb := hrt.2 dr hdr
+  rw [Dia.abs_eq_sum _ (hl.mapv conj).1, ← List.sum_map_mul_left]
+  simp only [Dia.mapv, List.map_map, Function.comp_def, if_true]
+  congr 1
+  apply List.map_congr_left
+  intro dl _
+  by_cases hd : dl.1 - dr.1 = 0
+  · have : dl.1 = ((0 : Nat) : Int) - (((-dr.1).toNat : Nat) : Int) := by omega
+    rw [if_pos hd, if_pos this, mul_comm]
+  · have : ¬ dl.1 = ((0 : Nat) : Int) - (((-dr.1).toNat : Nat) : Int) := by omega
+    rw [if_neg hd, if_neg this, mul_zero]
+
+/-- **`inner_dia` with `left` given as a bra is `Σ_c left_c · right_c`** -/
+theorem innerDiaCore_bra (conj : R → R) (left right : Dia R) (n : Nat)
+    (hl : BraWF left n) (hrt : KetWF right n) :
+    innerDiaCore conj false left right = ((List.range n).map fun c => left.abs 0 c * right.abs c 0).sum := by
+  have h1 : ∀ c : Nat, left.abs 0 c * right.abs c 0 = right.abs c 0 * left.abs 0 c := fun c => mul_comm _ _
+  simp only [h1]
+  rw [ket_sum right n hrt.1 hrt.2]
+  unfold innerDiaCore
+  congr 1
+  apply List.map_congr_left
+  intro dr hdr
+  have hb := hrt.2 dr hdr
+  rw [Dia.abs_eq_sum _ hl.1, ← List.sum_map_mul_left]
+  simp only [Bool.false_eq_true, if_false]
+  congr 1
+  apply List.map_congr_left
+  intro dl hdl
+  have hbl := hl.2 dl hdl
+  by_cases hd : dl.1 + dr.1 = 0
+  · have h2 : dl.1 = (((-dr.1).toNat : Nat) : Int) - ((0 : Nat) : Int) := by omega
+    have h3 : (-dr.1).toNat = dl.1.toNat := by omega
+    rw [if_pos hd, if_pos h2, h3, mul_comm]
+  · have : ¬ dl.1 = (((-dr.1).toNat : Nat) : Int) - ((0 : Nat) : Int) := by omega
+    rw [if_neg hd, if_neg this, mul_zero]
+
+/-- the entry of `op` picked by the triple loop for a pair (row of the left state, row of the right state) -/
+theorem op_entry_sum (op : Dia R) (ho : (op.diags.map (·.1)).Nodup) (a b : Int) (ha : 0 ≤ a) (hb : b ≤ 0) (x : R) :
+    x * op.abs a.toNat (-b).toNat
+      = (op.diags.map fun dop => if a + b + dop.1 = 0 then x * dop.2 (-b).toNat else 0).sum := by
+  rw [Dia.abs_eq_sum op ho, ← List.sum_map_mul_left]
+  congr 1
+  apply List.map_congr_left
+  intro dop _
+  by_cases hd : a + b + dop.1 = 0
+  · have : dop.1 = (((-b).toNat : Nat) : Int) - ((a.toNat : Nat) : Int) := by omega
+    rw [if_pos hd, if_pos this]
+  · have : ¬ dop.1 = (((-b).toNat : Nat) : Int) - ((a.toNat : Nat) : Int) := by omega
+    rw [if_neg hd, if_neg this, mul_zero]
+
+/-- **`inner_op_dia` with `left` given as a ket is `Σ_r Σ_c conj(left_r) · op_rc · right_c`** for an operator of any
+shape (square, wide or tall) -/
+theorem innerOpDiaCore_ket (conj : R → R) (hc : conj 0 = 0) (left op right : Dia R)
+    (hl : KetWF left op.rows) (hrt : KetWF right op.cols) (ho : (op.diags.map (·.1)).Nodup) :
+    innerOpDiaCore conj true left op right
+      = ((List.range op.rows).map fun r => conj (left.abs r 0) *
+          ((List.range op.cols).map fun c => op.abs r c * right.abs c 0).sum).sum := by
+  -- rows of the left state → its diagonals
+  have h1 : ∀ r : Nat, conj (left.abs r 0) * ((List.range op.cols).map fun c => op.abs r c * right.abs c 0).sum
+      = (left.mapv conj).abs r 0 * ((List.range op.cols).map fun c => right.abs c 0 * op.abs r c).sum := by
+    intro r
+    rw [Dia.mapv_abs conj hc]
+    congr 2
+    apply List.map_congr_left
+    intro c _
+    exact mul_comm _ _
+  simp only [h1]
+  rw [ket_sum (left.mapv conj) op.rows (hl.mapv conj).1 (hl.mapv conj).2]
+  -- columns → diagonals of the right state
+  simp only [ket_sum right op.cols hrt.1 hrt.2]
+  simp only [Dia.mapv, List.map_map, Function.comp_def]
+  -- the loops run over the right state first
+  unfold innerOpDiaCore
+  rw [sum_comm_list right.diags left.diags]
+  congr 1
+  apply List.map_congr_left
+  intro dl hdl
+  have hbl := hl.2 dl hdl
+  rw [← List.sum_map_mul_left]
+  congr 1
+  apply List.map_congr_left
+  intro dr hdr
+  have hbr := hrt.2 dr hdr
+  simp only [if_true]
+  have key := op_entry_sum op ho (-dl.1) dr.1 (by omega) hbr.2 (conj (dl.2 0) * dr.2 0)
+  rw [← mul_assoc, key]
+
+/-- **`inner_op_dia` with `left` given as a bra is `Σ_r Σ_c left_r · op_rc · right_c`** -/
+theorem innerOpDiaCore_bra (conj : R → R) (left op right : Dia R)
+    (hl : BraWF left op.rows) (hrt : KetWF right op.cols) (ho : (op.diags.map (·.1)).Nodup) :
+    innerOpDiaCore conj false left op right
+      = ((List.range op.rows).map fun r => left.abs 0 r *
+          ((List.range op.cols).map fun c => op.abs r c * right.abs c 0).sum).sum := by
+  have h1 : ∀ r : Nat, left.abs 0 r * ((List.range op.cols).map fun c => op.abs r c * right.abs c 0).sum
+      = left.abs 0 r * ((List.range op.cols).map fun c => right.abs c 0 * op.abs r c).sum := by
+    intro r
+    congr 2
+    apply List.map_congr_left
+    intro c _
+    exact mul_comm _ _
+  simp only [h1]
+  rw [bra_sum left op.rows hl.1 hl.2]
+  simp only [ket_sum right op.cols hrt.1 hrt.2]
+  unfold innerOpDiaCore
+  rw [sum_comm_list right.diags left.diags]
+  congr 1
+  apply List.map_congr_left
+  intro dl hdl
+  have hbl := hl.2 dl hdl
+  rw [← List.sum_map_mul_left]
+  congr 1
+  apply List.map_congr_left
+  intro dr hdr
+  have hbr := hrt.2 dr hdr
+  simp only [Bool.false_eq_true, if_false]
+  have key := op_entry_sum op ho dl.1 dr.1 hbl.1 hbr.2 (dl.2 dl.1.toNat * dr.2 0)
+  rw [← mul_assoc, key]
+
+/-- the ket / bra decision of `inner_op_dia` and `inner_dia`: from the shapes, except for 1x1 operands where the
+caller's flag decides (the two readings then differ by the conjugation only) -/
+theorem innerIsKet_spec (leftRows leftCols n : Nat) (flag : Bool) (hn : n ≠ 1) :
+    (leftRows = n → innerIsKet leftRows n flag = true) ∧
+    (leftRows = 1 → innerIsKet leftRows n flag = false) := by
+  unfold innerIsKet
+  constructor
+  · intro h; simp [hn, h]
+  · intro h; subst h; simp [hn]; omega
+/-- the hypotheses are met by the kets the library builds (one stored diagonal per non-zero row) -/
+example : KetWF (R := Int) { rows := 3, cols := 1, diags := [(0, fun _ => 2), (-2, fun _ => 5)] } 3 := by
+  refine ⟨by decide, ?_⟩
+  intro d hd
+  simp only [List.mem_cons, List.not_mem_nil, or_false] at hd
+  rcases hd with rfl | rfl <;> simp
+end diaInnerThm
+
 /-- **a specialisation constructed by inserting conversions computes the same operation**: if the
 registered implementation refines `f` on the meanings and every converter preserves the meaning, so
 does the constructed one — for every requested combination of operand and output formats -/
